@@ -765,6 +765,24 @@ func Explore(cfg *Config) *Result {
 			sh.mu.Unlock()
 		}(w)
 	}
+	if cfg.Verbose {
+		stopProg := make(chan struct{})
+		defer close(stopProg)
+		go func() {
+			tk := time.NewTicker(10 * time.Second)
+			defer tk.Stop()
+			for {
+				select {
+				case <-stopProg:
+					return
+				case <-tk.C:
+					sh.mu.Lock()
+					fmt.Fprintf(os.Stderr, "progress %s: started=%d pending=%d active=%d violations=%d\n", cfg.Harness, sh.started, len(sh.pending), sh.active, len(res.Violations))
+					sh.mu.Unlock()
+				}
+			}
+		}()
+	}
 	wg.Wait()
 	if f := fatal.Load(); f != nil {
 		res.Notes = append(res.Notes, fmt.Sprint(f))
